@@ -76,6 +76,19 @@ def grantedTimeout (th : Option Str) (requested : Int) : Option Int :=
     else if validTimeoutText v && decide (digitsVal (v.drop 7) ≤ maxTd) then some (Int.ofNat (digitsVal (v.drop 7)))
     else none
 
+/-- the TIMEOUT value the publisher was asked for: what stands on the wire in the request -/
+def wireTimeout (r : Request) : Option Int :=
+  match hdr r kTIMEOUT with
+  | some t => if validTimeoutText t then some (Int.ofNat (digitsVal (t.drop 7))) else none
+  | none => none
+
+/-- a 200 whose SID header is EMPTY: the property's reactions are "200 with / with new / without SID"; whether an
+    empty value grants a subscription named "" or counts as "without SID" is not stated — outside the domain -/
+def emptySidGrant (e : Exch) : Bool :=
+  match e.react with
+  | .resp status (some s) _ => decide (status = 200) && s.isEmpty && e.req.method == mSUBSCRIBE
+  | _ => false
+
 /-- the exchange states its granted timeout canonically (otherwise the timeout a call returns is not judged;
     everything else is) -/
 def exchInScope (e : Exch) : Bool :=
@@ -106,8 +119,8 @@ def foldExch (exp : PyDict Str Nat) (e : Exch) : PyDict Str Nat :=
     | none => exp
   else exp
 
-/-- what the last exchange of a call granted: (SID, TIMEOUT header) -/
-def lastGrant : List Exch → Option (Str × Option Str)
+/-- what the last exchange of a call granted: (SID, TIMEOUT header of the answer, TIMEOUT asked for on the wire) -/
+def lastGrant : List Exch → Option (Str × Option Str × Option Int)
   | [] => none
   | [e] =>
     if e.req.method = mSUBSCRIBE then
@@ -115,8 +128,8 @@ def lastGrant : List Exch → Option (Str × Option Str)
       | .resp status sid th =>
         if status = 200 then
           match hdr e.req kSID with
-          | none => sid.map fun s => (s, th)
-          | some s0 => some (renewedSid s0 sid, th)
+          | none => sid.map fun s => (s, th, wireTimeout e.req)
+          | some s0 => some (renewedSid s0 sid, th, wireTimeout e.req)
         else none
       | _ => none
     else none
@@ -149,30 +162,32 @@ structure Step where
   sidFor : List (Nat × Option Str)   -- sid_for_service(i) for every service
 deriving Repr
 
-/-- requested timeout of a call that may return a grant -/
-def requestedTimeout : Call → Option Int
-  | .subscribe _ t => some t
-  | .resubscribe _ t => some t
-  | _ => none
-
 /-- the call returned SID `sid` and — where the publisher stated one canonically — the granted timeout -/
 def subResOk (res : Result) (sid : Str) (g : Option Int) : Bool :=
   match res with
   | .sub s' t' => s' == sid && (match g with | some x => t' == x | none => true)
   | _ => false
 
+/-- the timeout a grant stands for: the answer's `Second-N`, else the one ASKED FOR ON THE WIRE (what the
+    publisher agreed to), not the caller's argument; `none` = no demand -/
+def grantOf (th : Option Str) (wire : Option Int) : Option Int :=
+  match wire with
+  | some w => grantedTimeout th w
+  | none => none      -- the request carried no valid TIMEOUT: rejected by the validity clause
+
 def resultOk (s : Step) : Bool :=
   match s.call with
-  | .subscribe _ t | .resubscribe _ t =>
+  | .subscribe _ _ | .resubscribe _ _ =>
     (match lastGrant s.exch with
-     | some (sid, th) => subResOk s.res sid (grantedTimeout th t)
+     | some (sid, th, wire) => subResOk s.res sid (grantOf th wire)
      | none => (excOf s.res).isSome)
   | .unsubscribe _ =>
+    -- "a successful call returns the SID"; what an unconfirmed unsubscribe returns or raises is not stated
     (match s.exch.getLast? with
      | some e => (match e.react with
-        | .resp status _ _ => if status = 200 then (match hdr e.req kSID with | some sid => s.res == .unsub sid | none => true) else (excOf s.res).isSome
-        | _ => (excOf s.res).isSome)
-     | none => (excOf s.res).isSome)
+        | .resp status _ _ => if status = 200 then (match hdr e.req kSID with | some sid => s.res == .unsub sid | none => true) else true
+        | _ => true)
+     | none => true)
   | _ => true
 
 /-- the first request of a by-SID / by-service call is about that SID / service -/
@@ -210,15 +225,24 @@ def routedOk (exp : PyDict Str Nat) (s : Step) : Bool :=
 
 def stepInScope (s : Step) : Bool := s.exch.all exchInScope
 
+/-- "once an unsubscribe has been issued its SID is no longer routed": observed at the moment the UNSUBSCRIBE
+    arrives at the publisher, i.e. while the request is still in flight -/
+def unsubIssuedOk (l : List Exch) : Bool := l.all fun e => e.req.method != mUNSUBSCRIBE || e.req.routed.isNone
+
+/-- no answer of the step is outside the property's reactions -/
+def stepInDomain (s : Step) : Bool := s.exch.all fun e => !emptySidGrant e
+
 def stepOk (exp : PyDict Str Nat) (s : Step) : Bool :=
   routedOk (s.exch.foldl foldExch exp) s
   && resultOk s && targetOk s && fallbackOk s.call s.exch && s.exch.all (fun e => validReq e.req)
+  && unsubIssuedOk s.exch
 
 /-- **C09.ok** — judge of a whole history, starting from an empty registry -/
 def okFrom : PyDict Str Nat → List Step → Bool
   | _, [] => true
   | exp, s :: rest =>
-    stepOk exp s && okFrom (s.exch.foldl foldExch exp) rest
+    if stepInDomain s then stepOk exp s && okFrom (s.exch.foldl foldExch exp) rest
+    else true     -- an answer outside the property's reactions (empty SID): compared with the model only from here on
 
 def ok (h : List Step) : Bool := okFrom [] h
 
@@ -227,7 +251,9 @@ def ok (h : List Step) : Bool := okFrom [] h
 def firstBadFrom : PyDict Str Nat → List Step → Nat → Option (Nat × PyDict Str Nat)
   | _, [], _ => none
   | exp, s :: rest, i =>
-    if stepOk exp s then firstBadFrom (s.exch.foldl foldExch exp) rest (i + 1) else some (i, exp)
+    if stepInDomain s then
+      if stepOk exp s then firstBadFrom (s.exch.foldl foldExch exp) rest (i + 1) else some (i, exp)
+    else none
 
 end Upnp.C09
 
